@@ -21,8 +21,9 @@ Definition site_creation_fee (k : fsite) (self : addr) (fee_denom mint_denom : d
 
 (* ---- sites that fair-burn a native fee through checked_fair_burn(info, env, fee, None) *)
 Inductive pay_rule :=
-| PayAtLeast      (* only checked_fair_burn's own test: shuffle, Merkle whitelists, EnableUpdatable *)
-| PayExactMust    (* must_pay(ustars) and payment == fee first: whitelist creation, base-minter mint *)
+| PayAtLeast      (* only checked_fair_burn's own test: shuffle, EnableUpdatable *)
+| PayExactMust    (* must_pay(ustars) and payment == fee first: whitelist creation (Merkle kinds
+                     included), base-minter mint *)
 | PayExactMay.    (* may_pay(ustars) and payment == fee first, nothing emitted for a zero fee:
                      IncreaseMemberLimit *)
 
@@ -67,7 +68,7 @@ Definition site_wl_increase (k : wlsite) (self : addr) (old new : N) (funds : li
   else site_fair_burn_fee PayExactMay self (wl_upgrade_fee k old new) funds.
 
 Definition site_wl_merkle_create (tiered : bool) (self : addr) (funds : list coin) :=
-  site_fair_burn_fee PayAtLeast self
+  site_fair_burn_fee PayExactMust self
     (if tiered then tiered_whitelist_merkletree__CREATION_FEE else whitelist_merkletree__CREATION_FEE) funds.
 
 Definition site_enable_updatable (self : addr) (funds : list coin) :=
